@@ -129,7 +129,9 @@ def call_sequence_block(ctx, rng):
             f = DS.DiffRHS(rhs)
             t = Fr(rng.randint(-8, 8), 8)
             y = [Fr(rng.randint(-16, 16), 16) for _ in range(n)]
-            plan = ["chain", "jump", "same-start-other-step", "chain"]
+            # (a second chained call really continues from the first one's end: whatever the integrator carries over is in use
+            # when the following call starts somewhere else)
+            plan = ["chain", "chain", "jump", "same-start-other-step", "chain", "chain", "jump", "chain"]
             y_np = np.array([float(v) for v in y], dtype=T)
             t_np = T(float(t))
             for kind in plan:
@@ -221,6 +223,42 @@ def implicit_block(ctx, rng):
         ctx.sample(dict(kind="implicit-step", op=lines[0][:240], model=outs[0][:120]))
 
 
+def shape_block(ctx, rng):
+    """the state may have any shape: a step on a matrix-valued state equals the step on the flattened state"""
+    for cls in I.implicit_methods() + [I.RK4Solver, I.RK45CKSolver, I.DOPRI45]:
+        if cls.__name__ == "RadauIIA19" and ctx.quick():
+            continue
+        for shape in ([(2, 2), (2, 3)] if ctx.quick() else [(2, 2), (2, 3), (3, 1), (1, 2, 2)]):
+            n = int(np.prod(shape))
+            rhs = polyrhs.random_poly(rng, n, max_deg=2, scale=0.3)
+            t0 = np.float64(rng.randint(-8, 8) / 8.0)
+            yv = np.array([rng.randint(-8, 8) / 16.0 for _ in range(n)])
+            h = np.float64(rng.choice([1, 2, 3]) / rng.choice([16.0, 32.0]) * rng.choice([1, -1]))
+            inp = dict(kind="state-shape", method=cls.__name__, shape=list(shape), rhs=rhs.proto(), t=float(t0), y=yv.tolist(), h=float(h))
+            res = []
+            try:
+                for shp in ((n,), shape):
+                    f = DS.DiffRHS(lambda t, y, shp=shp: np.asarray(rhs(t, np.reshape(y, (-1,))), dtype=np.float64).reshape(shp))
+                    integ = cls(shp, dtype=np.float64, rtol=1e-10, atol=1e-10)
+                    y0 = yv.reshape(shp).copy()
+                    integ.initial_rhs = f(t0, y0)
+                    integ.step(f, t0, y0, {}, h)
+                    ok = bool(integ.solver_dict.get("newton_iteration_success", True)) if integ.is_implicit else True
+                    res.append((np.array(integ.dState).reshape(-1), ok))
+            except Exception as e:
+                ctx.oracle("step-on-any-state-shape", False, inp, what="step on a state of shape %s raised %r" % (shape, e))
+                continue
+            (dv, okv), (dm, okm) = res
+            if not (okv and okm):
+                ctx.count("shape:not-converged")
+                continue
+            err = float(np.max(np.abs(dv - dm)))
+            ctx.oracle("step-on-any-state-shape", err <= 1e-8 * max(1.0, float(np.max(np.abs(dv)))), dict(inp, difference=err),
+                       what="the increment of a step on a state of shape %s differs from the step on the flattened state by %.2e" % (shape, err))
+            ctx.count("shape:%s" % (shape,))
+            ctx.nontrivial((cls.__name__, "shape", shape, float(h)))
+
+
 class Recorder:
     pass
 
@@ -299,6 +337,7 @@ def run(ctx):
     explicit_block(ctx, ctx.rng)
     call_sequence_block(ctx, ctx.rng)
     implicit_block(ctx, ctx.rng)
+    shape_block(ctx, ctx.rng)
     acceptance_block(ctx, ctx.rng)
     split_block(ctx, ctx.rng)
 
